@@ -119,7 +119,7 @@ static void exec_join(void)
 
 /* ------------------------------------------------------------------ PYTHON */
 static const char *PD[2] = { "=", ":=" }; static const char *PC[2] = { "#", ";" };
-static int p_first, p_n, p_ind[4], p_tail, p_cfg;
+static int p_first, p_n, p_ind[4], p_tail, p_cfg, p_nonl;   /* p_nonl: the file ends without a newline */
 static void gen_python(void)
 {
   p_cfg = mc_choose(4);
@@ -127,6 +127,7 @@ static void gen_python(void)
   p_n = mc_choose(Nmax + 1);
   for (int i = 0; i < p_n; i++) p_ind[i] = mc_choose(6);
   p_tail = mc_choose(2);
+  p_nonl = mc_choose(2);
 }
 static void exec_python(void)
 {
@@ -147,6 +148,7 @@ static void exec_python(void)
   sb_printf(&f, "%s\n", firsts[p_first]);
   for (int i = 0; i < p_n; i++) sb_printf(&f, "%s\n", ind[p_ind[i]]);
   if (p_tail) sb_printf(&f, "j%c2\n", d);
+  if (p_nonl && f.len && f.s[f.len - 1] == '\n') { f.len--; f.s[f.len] = 0; }
   sb_puts(&sig, "file=\""); sb_put_esc(&sig, f.s, f.len); sb_printf(&sig, "\" delim=\"%s\" comment=\"%s\"", PD[p_cfg / 2], PC[p_cfg % 2]);
   snprintf(mc_case_sig, sizeof mc_case_sig, "%s", sig.s);
   mc_log("%s\n", sig.s);
